@@ -238,6 +238,11 @@ def run(tier, v):
     vlib.run_hv("ana", req, out, timeout=3000, env={"HV_PCAP_DIR": os.path.join(wd, "pcap")})
     alone, inter = {}, {}
     for o in vlib.read_ndjson(out):
+        if o.get("skipped"):
+            continue
+        if o.get("hung"):
+            v.violation({"run": str(o["id"]), "observed": "the parallel front end does not finish: 10 s after analyze_pcap returned and the last result arrived, the result channel is still open (a worker has not left)"})
+            continue
         if "panic" in o:
             v.violation({"run": o["id"], "observed": "panic: " + o["panic"]})
             continue
